@@ -9,13 +9,13 @@ NOTE = ("trusted base: the independent reference model in harness/src/model (sel
 
 # id -> (technique, level text, design ref, extra note)
 CHECKS = {
- "C01": ("property-based mutation testing against an independent reference signer/verifier (oracle: Ok => presented signature is the reference HMAC of the request as received)",
+ "C01": ("property-based mutation testing against an independent reference signer/verifier (oracle: Ok => presented signature is the reference HMAC of the request as received), incl. accepted-original-then-edited-twin sequences",
          "each run signs tens of thousands of generated requests with the reference signer and applies one of ~30 single-component edits (every signature position included); anything the crate accepts must be acceptable to the model; failures shrink to a minimal request+edit",
          "DESIGN.md §5 C01"),
  "C02": ("property-based differential testing: reference SigV4 signer + model verdict vs crate verdict, metamorphic respelling",
          "generated logical requests are spelled for the wire in many admissible ways, signed by an independent reference signer on either carrier and must be accepted; tens of thousands (quick) to about a million (thorough) distinct non-trivial cases per run with shrinking to a minimal request",
          "DESIGN.md §5 C02"),
- "C03": ("grammar-based generation of credential strings + differential oracle on verdict, error kind and provider call log; direct fuzzing of prevalidate",
+ "C03": ("grammar-based generation of credential strings + differential oracle on verdict, error kind and provider call log; configuration-switch sequences; direct fuzzing of prevalidate",
          "near-miss credential scopes signed under the foreign scope's own key (the scripted provider even hands that key out) must be refused by the scope rule with zero provider calls; correct scopes must reach the provider with exactly the model's arguments",
          "DESIGN.md §5 C03"),
  "C04": ("exhaustive enumeration of whole-second clock offsets and nanosecond neighbours of both bounds + generated (instant, offset, rendering) triples against i128 reference arithmetic",
@@ -24,11 +24,11 @@ CHECKS = {
  "C05": ("property-based differential testing over (requirement set, header multiset, signed list) with correctly signed requests; model-based operation sequences for VecSignedHeaderRequirements",
          "requests are correctly signed over whatever list they carry, so acceptance hinges only on the requirement rules; the three container routes and mixed-case declarations are all generated",
          "DESIGN.md §5 C05"),
- "C06": ("exhaustive enumeration (secret lengths x capacities, calendar days) + generated inputs compared byte-for-byte with an independent HMAC-SHA256 chain",
+ "C06": ("exhaustive enumeration (secret lengths x capacities, calendar days) + generated inputs and generated sequences of consecutive derivations compared byte-for-byte with an independent HMAC-SHA256 chain, with and without a trace-level logger",
          "every length/capacity pair and the calendar edge cases are enumerated completely; random secrets, dates, regions and services are compared with the model's own SHA-256/HMAC on all ten derivation paths",
          "DESIGN.md §5 C06"),
  "C07": ("metamorphic trace comparison: ptrace single-stepped instruction-address traces of the whole validation under a byte-wise early-exit memcmp/bcmp, over generated (request, key, first-wrong-position) variants",
-         "for each generated request the trace of refusing a wrong signature must be identical for every first-wrong position (17 positions quick, all 64 + tails thorough); decides control-flow independence on this build, not microarchitectural timing",
+         "for each generated request the trace of refusing a wrong signature must be identical for every first-wrong position (17 positions quick, all 64 thorough, plus tail, other-replacement, same-byte-sum and exchanged-characters variants); decides control-flow independence on this build, not microarchitectural timing",
          "DESIGN.md §5 C07"),
  "C08": ("property-based robustness testing with panic capture: arbitrary and oversized requests, post-signing mutations, direct calls of every public operation",
          "no-panic is asserted over arbitrary request shapes, 64-200 KiB folded bodies, near-limit URIs, every charset label and direct API calls with hostile arguments; thorough tier adds a libFuzzer campaign",
@@ -48,7 +48,7 @@ CHECKS = {
  "C13": ("exhaustive pairs/triples of injected defects + random defect subsets; oracle: kind of the lowest-ranked defect (reference model), message-skeleton comparison, documented kind->code/status table",
          "all pairs (quick) and triples (thorough) of 31 defect classes on both carriers are enumerated; the taxonomy is checked on every error value and on constructed values of all 12 variants",
          "DESIGN.md §5 C13"),
- "C14": ("stateful (history-based) property testing with a scripted tower::Service provider and a harness-owned executor",
+ "C14": ("stateful (history-based) property testing with a scripted tower::Service provider and a harness-owned executor (generated readiness/pending schedules, eight foreign error types, abandoned validations)",
          "histories of up to 40 validations share one provider whose readiness, pending states and failures are generated; call counts, ordering, arguments, error pass-through and absence of state leaks are invariants after every step",
          "DESIGN.md §5 C14"),
  "C15": ("round-trip property testing of returned (Parts, body, principal, session) against what was submitted / what the provider supplied",
@@ -60,7 +60,7 @@ CHECKS = {
  "C17": ("property-based search of every observable text (captured log records, errors, Debug/Display of all public values) for 11 encodings of generated high-entropy key material",
          "generated secrets, all derived keys and the model-computed correct signature of refused requests are searched for in everything the library prints or logs at debug level or above",
          "DESIGN.md §5 C17"),
- "C18": ("differential repetition: outcome digests across repetitions, 2-16 concurrent threads (barrier start), and fresh cold-start processes",
+ "C18": ("differential repetition: outcome digests across repetitions, 2-16 concurrent threads (barrier start), fresh cold-start processes under differing environments; harness-scheduled interleaving of in-flight validations on one thread; model-judged sequences of sibling requests (history independence)",
          "a generated corpus is validated repeatedly, concurrently and in fresh processes whose threads race on the lazily initialised globals; interleavings are sampled by the OS scheduler, not enumerated",
          "DESIGN.md §5 C18"),
  "C19": ("property-based differential testing of duplicated authentication inputs (16 kinds, both orders, inside or outside the signature) against the reference selection rules",
